@@ -1,10 +1,15 @@
 (** GraphAcyclicLemmas.v — helper lemmas for GraphAcyclicProofs.v (property C02, first half).
 
-    Part A: elementary facts about [find_node] / [dgraph] / [Inv].
+    Part A: elementary facts about [find_node] / [find_edge] / [dgraph]; [CCInv] (what the
+            cycle check needs of a state; implied by [Inv]).
     Part B: the literal stack loop [dep_loop] of _assert_node_does_not_depend_on_itself decides
-            "d lies on a directed cycle" and never runs out of its fuel ([cycle_check]).
+            "d lies on a directed cycle" and never runs out of its fuel.
     Part C: how every primitive mutator changes the by-source edge index [gsrc] (the only
-            component the directed part [dgraph] reads its arcs from). *)
+            component the directed part [dgraph] reads its arcs from); shape of add_edge results.
+    Part D: [CInv], a small invariant implied by [Inv] and preserved by every primitive, under
+            which a [Some false] answer of the loop is sound; used to prove the acyclicity
+            theorems without any premise on the full invariant.
+    Part E: the intermediate state of [_set_edge] satisfies [CCInv]. *)
 From Coq Require Import Relations.Relation_Operators.
 From CG Require Import Base Digraph DigraphProofs Graph GraphObs GraphInv.
 
@@ -133,27 +138,48 @@ Proof.
   intros E. apply sub_arcs_acyclic, incl_sub_arcs. rewrite E. apply incl_refl.
 Qed.
 
-Section InvFacts.
-  Variable parse : name -> option (name * Z).
-  Variable k : kind.
+Lemma dgraph_wf parse k g : Inv parse k g -> wf (dgraph g).
+Proof.
+  intros HI. split; [exact (inv_nodup_nodes HI)|]. intros a b Hab. cbn [dgraph verts].
+  apply arc_dgraph in Hab. destruct Hab as (e & Hin & _ & <- & <-).
+  exact (inv_endpoints HI e Hin).
+Qed.
+Arguments dgraph_wf {parse k g} HI.
+
+Lemma inb_of_node g x : In x (node_ids g) -> exists l, inb_of g x = Some l.
+Proof.
+  intros Hin. destruct (get_node_in _ _ Hin) as (n & Hn). exists (ninb n).
+  unfold inb_of. rewrite Hn. reflexivity.
+Qed.
+
+(** What the cycle check needs of a state: sources of edges are nodes and every per-node
+    inbound list is a permutation of the sources of the directed edges into the node.
+    Implied by [Inv] ([inv_ccinv]); also holds of the intermediate state of [_set_edge]. *)
+Definition CCInv (g : graph) : Prop :=
+  (forall e, In e (gsrc g) -> In (esrc e) (node_ids g))
+  /\ (forall x n, get_node g x = Some n -> Permutation (ninb n) (dir_into g x)).
+
+Lemma inv_ccinv parse k g : Inv parse k g -> CCInv g.
+Proof.
+  intros HI. split.
+  - intros e He. exact (proj1 (inv_endpoints HI e He)).
+  - intros x n Hn. destruct (get_node_some _ _ _ Hn) as [Hin <-]. exact (inv_inb HI n Hin).
+Qed.
+
+Section CCFacts.
   Variable g : graph.
-  Hypothesis HI : Inv parse k g.
+  Hypothesis HC : CCInv g.
 
-  Lemma dgraph_wf : wf (dgraph g).
+  Lemma arc_src_node a b : arc (dgraph g) a b -> In a (node_ids g).
   Proof.
-    split; [exact (inv_nodup_nodes HI)|]. intros a b Hab. cbn [dgraph verts].
-    apply arc_dgraph in Hab. destruct Hab as (e & Hin & _ & <- & <-).
-    exact (inv_endpoints HI e Hin).
+    intros Hab. apply arc_dgraph in Hab. destruct Hab as (e & Hin & _ & <- & _).
+    exact (proj1 HC e Hin).
   Qed.
-
-  Lemma arc_nodes a b : arc (dgraph g) a b -> In a (node_ids g) /\ In b (node_ids g).
-  Proof. intros H. exact (proj2 dgraph_wf a b H). Qed.
 
   Lemma inb_spec x l p : inb_of g x = Some l -> (In p l <-> arc (dgraph g) p x).
   Proof.
     unfold inb_of. destruct (get_node g x) as [n|] eqn:E; [|discriminate].
-    intros [= <-]. destruct (get_node_some _ _ _ E) as [Hin Hid]. subst x.
-    rewrite <- dir_into_in. pose proof (inv_inb HI n Hin) as P. split; intros H.
+    intros [= <-]. rewrite <- dir_into_in. pose proof (proj2 HC x n E) as P. split; intros H.
     - eapply Permutation_in; [exact P|exact H].
     - eapply Permutation_in; [symmetry; exact P|exact H].
   Qed.
@@ -163,20 +189,12 @@ Section InvFacts.
     length l = length (filter (fun e => etype_eqb (ety e) Dir && name_eqb x (edst e)) (gsrc g)).
   Proof.
     unfold inb_of. destruct (get_node g x) as [n|] eqn:E; [|discriminate].
-    intros [= <-]. destruct (get_node_some _ _ _ E) as [Hin Hid]. subst x.
-    rewrite <- dir_into_length. apply Permutation_length, (inv_inb HI n Hin).
+    intros [= <-]. rewrite <- dir_into_length. apply Permutation_length, (proj2 HC x n E).
   Qed.
-
-  Lemma inb_of_node x : In x (node_ids g) -> exists l, inb_of g x = Some l.
-  Proof.
-    intros Hin. destruct (get_node_in _ _ Hin) as (n & Hn). exists (ninb n).
-    unfold inb_of. rewrite Hn. reflexivity.
-  Qed.
-End InvFacts.
-Arguments dgraph_wf {parse k g} HI.
-Arguments arc_nodes {parse k g} HI {a b} _.
-Arguments inb_spec {parse k g} HI {x l} p _.
-Arguments inb_length {parse k g} HI {x l} _.
+End CCFacts.
+Arguments arc_src_node {g} HC {a b} _.
+Arguments inb_spec {g} HC {x l} p _.
+Arguments inb_length {g} HC {x l} _.
 
 (** * Part B: the cycle check *)
 
@@ -208,10 +226,8 @@ Lemma wt_le es checked : wt es checked <= length es.
 Proof. apply filter_length_le'. Qed.
 
 Section CycleCheck.
-  Variable parse : name -> option (name * Z).
-  Variable k : kind.
   Variable g : graph.
-  Hypothesis HI : Inv parse k g.
+  Hypothesis HI : CCInv g.
   Variable d : name.
 
   Notation G := (dgraph g).
@@ -247,7 +263,7 @@ Section CycleCheck.
           -- cbn [length] in Hfuel. lia.
         * assert (Hcurd : path G cur d) by (apply Hto; left; reflexivity).
           assert (Hnode : In cur (node_ids g)).
-          { destruct (path_first Hcurd) as (z & Hcz & _). exact (proj1 (arc_nodes HI Hcz)). }
+          { destruct (path_first Hcurd) as (z & Hcz & _). exact (arc_src_node HI Hcz). }
           destruct (inb_of_node g _ Hnode) as (ps & Hps). rewrite Hps.
           apply IH.
           -- discriminate.
@@ -512,8 +528,8 @@ Proof.
   intros H x y. split; apply path_mono; intros a b Hab; apply H, Hab.
 Qed.
 
-Arguments depends_on_itself_spec {parse k g} HI d _.
-Arguments dep_loop_spec {parse k g} HI d fuel checked to_check _ _ _ _ _.
+Arguments depends_on_itself_spec {g} HI d _.
+Arguments dep_loop_spec {g} HI d fuel checked to_check _ _ _ _ _.
 
 (** a validated, accepted add keeps the directed part acyclic *)
 Lemma added_edge_acyclic parse k g g' sp dp ty :
@@ -522,7 +538,7 @@ Proof.
   intros HI' Hac (e & Hg & Hty & _ & Hdep). specialize (Hdep eq_refl).
   assert (Hd : In (edst e) (node_ids g')).
   { apply (inv_endpoints HI' e). rewrite Hg. apply in_or_app; right; left; reflexivity. }
-  destruct (depends_on_itself_spec HI' (edst e) Hd) as (b & Hb & Hiff).
+  destruct (depends_on_itself_spec (inv_ccinv _ _ _ HI') (edst e) Hd) as (b & Hb & Hiff).
   rewrite Hdep in Hb. injection Hb as <-.
   assert (Hnp : ~ path (dgraph g') (edst e) (edst e)).
   { intros Hp. apply Hiff in Hp. discriminate. }
@@ -553,4 +569,500 @@ Proof.
     right. assert (Hty' : ty = Dir) by congruence. destruct (Hdir Hty') as [-> ->].
     repeat split; assumption.
   - left. revert Hab. apply incl_sub_arcs, Hs.
+Qed.
+
+(** * Part D: a small self-contained invariant for the soundness of the "no cycle" answer
+
+    [CInv]: every destination of a stored edge is a node, and the inbound list of a node lists
+    (at least) the sources of all directed edges into it.  It is implied by [Inv], holds of the
+    empty graph, is preserved by EVERY primitive of the model — so the acyclicity theorems below
+    need no premise about the full invariant — and makes a [Some false] answer of the stack
+    loop trustworthy. *)
+Record CInv (g : graph) : Prop := {
+  c_dst : forall e, In e (gsrc g) -> In (edst e) (node_ids g);
+  c_inb : forall x n e, get_node g x = Some n -> In e (gsrc g) -> ety e = Dir -> edst e = x ->
+                        In (esrc e) (ninb n)
+}.
+Arguments c_dst {g} _ e _.
+Arguments c_inb {g} _ x n e _ _ _ _.
+
+Lemma inv_cinv parse k g : Inv parse k g -> CInv g.
+Proof.
+  intros HI. constructor.
+  - intros e He. exact (proj2 (inv_endpoints HI e He)).
+  - intros x n e Hn He Hty Hd. destruct (get_node_some _ _ _ Hn) as [Hin Hid].
+    eapply Permutation_in; [symmetry; exact (inv_inb HI n Hin)|].
+    rewrite Hid. apply dir_into_in, arc_dgraph. exists e. repeat split; assumption.
+Qed.
+
+Lemma cinv_empty m : CInv (empty_graph m).
+Proof. constructor; cbn; [intros e []|intros x n e _ []]. Qed.
+
+Lemma closed_no_cycle (G : digraph name) d checked :
+  In d checked ->
+  (forall x p, In x checked -> arc G p x -> In p checked /\ p <> d) ->
+  ~ path G d d.
+Proof.
+  intros Hd Hcl Hp.
+  assert (Hall : forall x y, path G x y -> In y checked -> In x checked /\ x <> d).
+  { intros x y Hxy. induction Hxy as [x y Harc|x y z _ IHa _ IHb]; intros Hy.
+    - exact (Hcl y x Hy Harc).
+    - destruct (IHb Hy) as [Hy' _]. apply IHa, Hy'. }
+  destruct (Hall d d Hp Hd) as [_ Hnd]. apply Hnd; reflexivity.
+Qed.
+
+Section Sound.
+  Variable g : graph.
+  Hypothesis HC : CInv g.
+  Variable d : name.
+  Notation G := (dgraph g).
+
+  Lemma cinv_parents x l p : inb_of g x = Some l -> arc G p x -> In p l.
+  Proof.
+    unfold inb_of. destruct (get_node g x) as [n|] eqn:E; [|discriminate].
+    intros [= <-] Hp. apply arc_dgraph in Hp. destruct Hp as (e & Hin & Hty & <- & Hd).
+    exact (c_inb HC _ _ _ E Hin Hty Hd).
+  Qed.
+
+  Lemma dep_loop_false fuel : forall checked to_check,
+    checked <> [] -> In d checked ->
+    (forall x p, In x checked -> arc G p x -> In p to_check \/ (In p checked /\ p <> d)) ->
+    dep_loop fuel g d checked to_check = Some false -> ~ path G d d.
+  Proof.
+    induction fuel as [|f IH]; intros checked to_check Hne Hd Hcl; [discriminate|].
+    assert (Hnb : negb (match checked with [] => true | _ :: _ => false end) = true).
+    { destruct checked; [contradiction|reflexivity]. }
+    destruct to_check as [|cur rest].
+    - intros _. apply (closed_no_cycle G d checked Hd).
+      intros x p Hx Hpx. destruct (Hcl x p Hx Hpx) as [[]|H]; exact H.
+    - cbn [dep_loop]. rewrite Hnb, andb_true_r.
+      destruct (name_eqb_spec cur d) as [->|Hcd]; [discriminate|].
+      destruct (mem cur checked) eqn:Emem.
+      + apply IH; try assumption.
+        intros x p Hx Hpx. destruct (Hcl x p Hx Hpx) as [[<-|Hin]|H].
+        * right. split; [apply mem_in, Emem|exact Hcd].
+        * left; exact Hin.
+        * right; exact H.
+      + destruct (inb_of g cur) as [ps|] eqn:Hps; [|discriminate].
+        apply IH.
+        * discriminate.
+        * right; exact Hd.
+        * intros x p Hx Hpx. destruct Hx as [<-|Hx].
+          -- left. apply in_or_app; left. apply in_rev. rewrite rev_involutive.
+             exact (cinv_parents _ _ _ Hps Hpx).
+          -- destruct (Hcl x p Hx Hpx) as [[<-|Hin]|[Hin Hpd]].
+             ++ right. split; [left; reflexivity|exact Hcd].
+             ++ left. apply in_or_app; right; exact Hin.
+             ++ right. split; [right; exact Hin|exact Hpd].
+  Qed.
+
+  Lemma depends_false_sound : depends_on_itself g d = Some false -> ~ path G d d.
+  Proof.
+    unfold depends_on_itself.
+    replace (length (gsrc g) + 2) with (S (length (gsrc g) + 1)) by lia.
+    cbn [dep_loop]. rewrite andb_false_r. cbn [mem existsb].
+    destruct (inb_of g d) as [ps|] eqn:Hps; [|discriminate].
+    apply dep_loop_false.
+    - discriminate.
+    - left; reflexivity.
+    - intros x p [<-|[]] Hpx. left. rewrite app_nil_r. apply in_rev. rewrite rev_involutive.
+      exact (cinv_parents _ _ _ Hps Hpx).
+  Qed.
+End Sound.
+Arguments depends_false_sound {g} HC d _.
+
+(** a validated, accepted add keeps the directed part acyclic ([CInv] version) *)
+Lemma added_edge_acyclic_c g g' sp dp ty :
+  CInv g' -> Acyclic g -> added_edge g g' sp dp ty true -> Acyclic g'.
+Proof.
+  intros HC' Hac (e & Hg & Hty & _ & Hdep). specialize (Hdep eq_refl).
+  pose proof (depends_false_sound HC' (edst e) Hdep) as Hnp.
+  intros v Hv.
+  destruct (etype_eqb_spec (ety e) Dir) as [HD|HnD].
+  - assert (Hext : forall a b, arc (dgraph g') a b
+                               <-> arc (add_arc (dgraph g) (esrc e) (edst e)) a b).
+    { intros a b. rewrite (arc_app g g' e Hg), add_arc_arc. split.
+      - intros [H|(_ & <- & <-)]; [left; exact H|right; split; reflexivity].
+      - intros [H|[-> ->]]; [left; exact H|right; repeat split; exact HD]. }
+    apply (path_ext _ _ Hext) in Hv.
+    apply Hnp. apply (path_ext _ _ Hext).
+    eapply cycle_through_new_arc; [exact Hv|apply Hac].
+  - apply (Hac v). revert Hv. apply path_mono. intros a b Hab.
+    apply (arc_app g g' e Hg) in Hab. destruct Hab as [H|[H _]]; [exact H|contradiction].
+Qed.
+
+(** ** node-list utilities *)
+
+Lemma find_node_app x l1 l2 :
+  find_node x (l1 ++ l2)
+  = match find_node x l1 with Some n => Some n | None => find_node x l2 end.
+Proof.
+  induction l1 as [|a l1 IH]; cbn [app find_node]; [reflexivity|].
+  destruct (name_eqb x (nid a)); [reflexivity|exact IH].
+Qed.
+
+Lemma find_node_update f id x ns :
+  (forall n, name_eqb id (nid n) = true -> nid (f n) = nid n) ->
+  find_node x (update_node f id ns)
+  = match find_node x ns with
+    | Some n => Some (if name_eqb id (nid n) then f n else n)
+    | None => None
+    end.
+Proof.
+  intros Hf. unfold update_node. induction ns as [|a ns IH]; cbn [map find_node]; [reflexivity|].
+  assert (E : nid (if name_eqb id (nid a) then f a else a) = nid a).
+  { destruct (name_eqb id (nid a)) eqn:Ea; [apply Hf, Ea|reflexivity]. }
+  rewrite E. destruct (name_eqb x (nid a)); [reflexivity|exact IH].
+Qed.
+
+Lemma update_node_ids f id ns :
+  (forall n, name_eqb id (nid n) = true -> nid (f n) = nid n) ->
+  map nid (update_node f id ns) = map nid ns.
+Proof.
+  intros Hf. unfold update_node. rewrite map_map. apply map_ext. intros a.
+  destruct (name_eqb id (nid a)) eqn:Ea; [apply Hf, Ea|reflexivity].
+Qed.
+
+Lemma find_node_update2 fo fi s d x ns n' :
+  (forall n, nid (fo n) = nid n) -> (forall n, ninb (fo n) = ninb n) ->
+  (forall n, nid (fi n) = nid n) ->
+  find_node x (update_node fo s (update_node fi d ns)) = Some n' ->
+  exists n, find_node x ns = Some n
+            /\ ninb n' = if name_eqb d x then ninb (fi n) else ninb n.
+Proof.
+  intros Hfo Hfo' Hfi.
+  rewrite (find_node_update fo s x _ (fun n _ => Hfo n)), (find_node_update fi d x _ (fun n _ => Hfi n)).
+  destruct (find_node x ns) as [n|] eqn:E; [|discriminate].
+  intros [= <-]. exists n. split; [reflexivity|].
+  destruct (find_node_some _ _ _ E) as [_ Hid]. rewrite Hid.
+  destruct (name_eqb d x).
+  - rewrite Hfi, Hid. destruct (name_eqb s x); [apply Hfo'|reflexivity].
+  - rewrite Hid. destruct (name_eqb s x); [apply Hfo'|reflexivity].
+Qed.
+
+Lemma find_node_filter id x ns :
+  find_node x (filter (fun n' => negb (name_eqb id (nid n'))) ns)
+  = if name_eqb id x then None else find_node x ns.
+Proof.
+  induction ns as [|a ns IH]; cbn [filter find_node]; [destruct (name_eqb id x); reflexivity|].
+  destruct (name_eqb_spec id (nid a)) as [E|Hn]; cbn [negb].
+  - rewrite IH. destruct (name_eqb_spec id x) as [E2|Hn2]; [reflexivity|].
+    destruct (name_eqb_spec x (nid a)) as [E3|_]; [congruence|reflexivity].
+  - cbn [find_node]. destruct (name_eqb_spec x (nid a)) as [E3|Hn3].
+    + destruct (name_eqb_spec id x) as [E2|_]; [congruence|reflexivity].
+    + exact IH.
+Qed.
+
+Lemma in_ids_filter id x ns :
+  In x (map nid ns) -> x <> id ->
+  In x (map nid (filter (fun n' => negb (name_eqb id (nid n'))) ns)).
+Proof.
+  intros Hin Hne. apply in_map_iff in Hin. destruct Hin as (n & Hid & Hin).
+  apply in_map_iff. exists n. split; [exact Hid|]. apply filter_In. split; [exact Hin|].
+  destruct (name_eqb_spec id (nid n)); [congruence|reflexivity].
+Qed.
+
+Lemma remove_first_in_neq s p l : In p l -> p <> s -> In p (remove_first s l).
+Proof.
+  induction l as [|y l IH]; cbn [remove_first]; [intros []|].
+  intros [<-|Hin] Hne.
+  - destruct (name_eqb_spec s y); [congruence|left; reflexivity].
+  - destruct (name_eqb s y); [exact Hin|right; apply IH; assumption].
+Qed.
+
+(** ** preservation of [CInv] by the primitives *)
+
+Lemma cinv_ext g g' : gnodes g' = gnodes g -> gsrc g' = gsrc g -> CInv g -> CInv g'.
+Proof.
+  intros En Es [H1 H2]. constructor; unfold get_node, node_ids in *; rewrite En, Es; assumption.
+Qed.
+
+Lemma idx_add_gnodes k g n g' : idx_add k g n = Ok g' -> gnodes g' = gnodes g.
+Proof.
+  unfold idx_add. destruct k; [intros [= <-]; reflexivity|].
+  destruct (meta_lag (nmeta n)); [|discriminate].
+  destruct (meta_var (nmeta n)); [|discriminate].
+  intros [= <-]. reflexivity.
+Qed.
+
+Lemma idx_remove_gnodes k g n g' : idx_remove k g n = Ok g' -> gnodes g' = gnodes g.
+Proof.
+  unfold idx_remove. destruct k; [intros [= <-]; reflexivity|].
+  destruct (meta_lag (nmeta n)); [|discriminate].
+  destruct (meta_var (nmeta n)); [|discriminate].
+  destruct (remove_first_pair Z.eqb _ _ _); [|discriminate].
+  destruct (remove_first_pair name_eqb _ _ _); [|discriminate].
+  intros [= <-]. reflexivity.
+Qed.
+
+Lemma mk_node_ok parse k id vt m n : mk_node parse k id vt m = Ok n -> nid n = id /\ ninb n = [].
+Proof.
+  unfold mk_node. destruct k; [intros [= <-]; split; reflexivity|].
+  destruct (parse id) as [[v l]|]; [|discriminate]. intros [= <-]; split; reflexivity.
+Qed.
+
+Lemma cinv_push_node g n : CInv g -> ninb n = [] -> CInv (push_node g n).
+Proof.
+  intros HC Hn. constructor.
+  - intros e He. cbn [push_node gsrc] in He. unfold node_ids, push_node; cbn [gnodes].
+    rewrite map_app. apply in_or_app; left. exact (c_dst HC e He).
+  - intros x n0 e Hg He Hty Hd. cbn [push_node gsrc] in He.
+    unfold get_node, push_node in Hg; cbn [gnodes] in Hg. rewrite find_node_app in Hg.
+    destruct (find_node x (gnodes g)) as [n1|] eqn:E.
+    + injection Hg as <-. exact (c_inb HC x n1 e E He Hty Hd).
+    + exfalso. apply (find_node_none _ _ E). rewrite <- Hd. exact (c_dst HC e He).
+Qed.
+
+Lemma push_node_ids g n : node_ids (push_node g n) = node_ids g ++ [nid n].
+Proof. unfold node_ids, push_node; cbn [gnodes]. rewrite map_app. reflexivity. Qed.
+
+Lemma add_node_obj_c parse k g id vt m g' :
+  CInv g -> add_node_obj parse k g id vt m = Ok g' ->
+  CInv g' /\ node_ids g' = node_ids g ++ [id].
+Proof.
+  intros HC. unfold add_node_obj. destruct (node_exists g id); [discriminate|].
+  destruct (mk_node parse k id vt m) as [n|x] eqn:En; cbn [bind]; [|discriminate].
+  destruct (mk_node_ok _ _ _ _ _ _ En) as [Hid Hinb]. intros H.
+  pose proof (idx_add_gnodes _ _ _ _ H) as Hn. pose proof (idx_add_gsrc _ _ _ _ H) as Hs.
+  split.
+  - apply (cinv_ext _ _ Hn Hs). apply cinv_push_node; assumption.
+  - unfold node_ids at 1. rewrite Hn. fold (node_ids (push_node g n)).
+    rewrite push_node_ids, Hid. reflexivity.
+Qed.
+
+Lemma add_node_id_c parse k g id vt m g' :
+  CInv g -> add_node_id parse k g id vt m = Ok g' ->
+  CInv g' /\ node_ids g' = node_ids g ++ [id].
+Proof.
+  intros HC. unfold add_node_id. destruct k.
+  - destruct (node_exists g id); [discriminate|].
+    destruct (mk_node parse Plain id vt _) as [n|x] eqn:En; cbn [bind]; [|discriminate].
+    destruct (mk_node_ok _ _ _ _ _ _ En) as [Hid Hinb]. intros [= <-]. split.
+    + apply cinv_push_node; assumption.
+    + rewrite push_node_ids, Hid. reflexivity.
+  - destruct (mk_node parse TS id vt _) as [n|x]; cbn [bind]; [|discriminate].
+    destruct (node_exists g id); [discriminate|].
+    destruct (mk_node parse TS id vt (nmeta n)) as [n2|x] eqn:En; cbn [bind]; [|discriminate].
+    destruct (mk_node_ok _ _ _ _ _ _ En) as [Hid Hinb]. intros H.
+    pose proof (idx_add_gnodes _ _ _ _ H) as Hn. pose proof (idx_add_gsrc _ _ _ _ H) as Hs.
+    split.
+    + apply (cinv_ext _ _ Hn Hs). apply cinv_push_node; assumption.
+    + unfold node_ids at 1. rewrite Hn. fold (node_ids (push_node g n2)).
+      rewrite push_node_ids, Hid. reflexivity.
+Qed.
+
+Lemma add_endpoint_c parse k g p g' :
+  CInv g -> add_endpoint parse k g p = Ok g' ->
+  CInv g' /\ In (fst p) (node_ids g') /\ incl (node_ids g) (node_ids g').
+Proof.
+  intros HC. unfold add_endpoint. destruct (node_exists g (fst p)) eqn:Ex.
+  - intros [= <-]. split; [exact HC|]. split; [apply node_exists_in, Ex|apply incl_refl].
+  - destruct (snd p) as [[vt m]|]; intros H.
+    + destruct (add_node_obj_c _ _ _ _ _ _ _ HC H) as [HC' Hids]. split; [exact HC'|].
+      rewrite Hids. split; [apply in_or_app; right; left; reflexivity|apply incl_appl, incl_refl].
+    + destruct (add_node_id_c _ _ _ _ _ _ _ HC H) as [HC' Hids]. split; [exact HC'|].
+      rewrite Hids. split; [apply in_or_app; right; left; reflexivity|apply incl_appl, incl_refl].
+Qed.
+
+Lemma insert_edge_ids g e : node_ids (insert_edge g e) = node_ids g.
+Proof.
+  unfold node_ids, insert_edge; cbn [gnodes]. destruct (etype_eqb (ety e) Dir); [|reflexivity].
+  rewrite !update_node_ids; intros; reflexivity.
+Qed.
+
+Lemma cinv_insert_edge g e : CInv g -> In (edst e) (node_ids g) -> CInv (insert_edge g e).
+Proof.
+  intros HC Hd. constructor.
+  - intros e' He'. rewrite insert_edge_ids. cbn [insert_edge gsrc] in He'.
+    apply in_app_or in He'. destruct He' as [He'|[<-|[]]]; [exact (c_dst HC e' He')|exact Hd].
+  - intros x n' e' Hg He' Hty Hdx. cbn [insert_edge gsrc] in He'.
+    unfold get_node, insert_edge in Hg; cbn [gnodes] in Hg.
+    destruct (etype_eqb_spec (ety e) Dir) as [HD|HnD].
+    + apply find_node_update2 in Hg; try reflexivity.
+      destruct Hg as (n & Hn & Hinb). cbn [ninb] in Hinb.
+      apply in_app_or in He'. destruct He' as [He'|[<-|[]]].
+      * pose proof (c_inb HC x n e' Hn He' Hty Hdx) as Hin.
+        rewrite Hinb. destruct (name_eqb (edst e) x); [apply in_or_app; left|]; exact Hin.
+      * rewrite Hinb, Hdx, name_eqb_refl. apply in_or_app; right; left; reflexivity.
+    + apply in_app_or in He'. destruct He' as [He'|[<-|[]]]; [|contradiction].
+      exact (c_inb HC x n' e' Hg He' Hty Hdx).
+Qed.
+
+Lemma delete_edge_ids g s d oty g' : delete_edge g s d oty = Ok g' -> node_ids g' = node_ids g.
+Proof.
+  unfold delete_edge. destruct (negb (node_exists g s)); [discriminate|].
+  destruct (negb (node_exists g d)); [discriminate|].
+  destruct (edge_at g s d) as [e|]; [|discriminate].
+  destruct (match oty with Some t => negb (etype_eqb t (ety e)) | None => false end);
+    [discriminate|].
+  intros [= <-]. unfold node_ids; cbn [gnodes].
+  destruct (etype_eqb (ety e) Dir); [|reflexivity].
+  rewrite !update_node_ids; intros; reflexivity.
+Qed.
+
+Lemma cinv_delete_edge g s d oty g' : CInv g -> delete_edge g s d oty = Ok g' -> CInv g'.
+Proof.
+  intros HC H. pose proof (delete_edge_ids _ _ _ _ _ H) as Hids.
+  pose proof (delete_edge_gsrc _ _ _ _ _ H) as Hsrc.
+  constructor.
+  - intros e He. rewrite Hids. rewrite Hsrc in He. apply drop_edge_incl in He.
+    exact (c_dst HC e He).
+  - intros x n' e' Hg He' Hty Hdx. rewrite Hsrc in He'. apply filter_In in He'.
+    destruct He' as [He' Hkeep].
+    revert H Hg. unfold delete_edge. destruct (negb (node_exists g s)); [discriminate|].
+    destruct (negb (node_exists g d)); [discriminate|].
+    destruct (edge_at g s d) as [e|]; [|discriminate].
+    destruct (match oty with Some t => negb (etype_eqb t (ety e)) | None => false end);
+      [discriminate|].
+    intros [= <-]. unfold get_node; cbn [gnodes].
+    destruct (etype_eqb (ety e) Dir).
+    + intros Hg. apply find_node_update2 in Hg; try reflexivity.
+      destruct Hg as (n & Hn & Hinb). cbn [ninb] in Hinb.
+      pose proof (c_inb HC x n e' Hn He' Hty Hdx) as Hin. rewrite Hinb.
+      destruct (name_eqb_spec d x) as [Edx|_]; [|exact Hin].
+      apply remove_first_in_neq; [exact Hin|]. intros Es.
+      rewrite <- Es, Edx, <- Hdx, !name_eqb_refl in Hkeep. discriminate.
+    + intros Hg. exact (c_inb HC x n' e' Hg He' Hty Hdx).
+Qed.
+
+Lemma fold_delete_cinv (l : list edge) : forall g1 g2, CInv g1 ->
+  fold_left (fun acc e => bind acc (fun g' => delete_edge g' (esrc e) (edst e) None)) l (Ok g1)
+    = Ok g2 ->
+  CInv g2 /\ incl (gsrc g2) (gsrc g1) /\ node_ids g2 = node_ids g1
+  /\ (forall e e', In e l -> In e' (gsrc g2) -> ~ (esrc e' = esrc e /\ edst e' = edst e)).
+Proof.
+  induction l as [|e l IH]; intros g1 g2 HC; cbn [fold_left].
+  - intros [= <-]. split; [exact HC|]. split; [apply incl_refl|]. split; [reflexivity|].
+    intros e e' [].
+  - cbn [bind]. destruct (delete_edge g1 (esrc e) (edst e) None) as [g1'|x] eqn:Ed.
+    + intros H. destruct (IH g1' g2 (cinv_delete_edge _ _ _ _ _ HC Ed) H)
+        as (HC2 & Hincl & Hids & Hno).
+      split; [exact HC2|]. split.
+      { eapply incl_tran; [exact Hincl|]. eapply delete_edge_incl; exact Ed. }
+      split; [rewrite Hids; eapply delete_edge_ids; exact Ed|].
+      intros e0 e' [<-|Hin] He'; [|apply Hno; assumption].
+      apply Hincl in He'. rewrite (delete_edge_gsrc _ _ _ _ _ Ed) in He'.
+      apply filter_In in He'. destruct He' as [_ Hkeep]. intros [E1 E2].
+      rewrite E1, E2, !name_eqb_refl in Hkeep. discriminate.
+    + intros H. destruct (fold_delete_incl _ _ _ H) as (g0 & Hg0 & _). discriminate.
+Qed.
+
+Lemma cinv_delete_node k g id g' : CInv g -> delete_node k g id = Ok g' -> CInv g'.
+Proof.
+  intros HC. unfold delete_node. destruct (get_node g id) as [n|]; [|discriminate].
+  destruct (idx_remove k g n) as [g1|x] eqn:E1; cbn [bind]; [|discriminate].
+  assert (HC1 : CInv g1).
+  { apply (cinv_ext g g1); [eapply idx_remove_gnodes; exact E1
+                            |eapply idx_remove_gsrc; exact E1|exact HC]. }
+  match goal with |- bind ?F _ = _ -> _ => destruct F as [g2|x] eqn:E2 end;
+    cbn [bind]; [|discriminate].
+  destruct (fold_delete_cinv _ _ _ HC1 E2) as (HC2 & Hincl & Hids & Hno).
+  intros [= <-].
+  assert (Hfree : forall e, In e (gsrc g2) -> esrc e <> id /\ edst e <> id).
+  { intros e He.
+    assert (Hni : ~ In e (filter (fun e => name_eqb id (esrc e) || name_eqb id (edst e))
+                            (sorted_edges g1))).
+    { intros Hi. apply (Hno e e Hi He). split; reflexivity. }
+    assert (Hs : In e (sorted_edges g1)) by (apply isort_in, Hincl, He).
+    split; intros E; apply Hni, filter_In; (split; [exact Hs|]);
+      rewrite E, name_eqb_refl; [reflexivity|apply orb_true_r]. }
+  constructor; cbn [gsrc].
+  - intros e He. unfold node_ids; cbn [gnodes]. apply in_ids_filter.
+    + exact (c_dst HC2 e He).
+    + exact (proj2 (Hfree e He)).
+  - intros x n' e Hg He Hty Hdx. unfold get_node in Hg; cbn [gnodes] in Hg.
+    rewrite find_node_filter in Hg. destruct (name_eqb id x); [discriminate|].
+    exact (c_inb HC2 x n' e Hg He Hty Hdx).
+Qed.
+
+Lemma cinv_cleanup k (l : list name) : forall gl, CInv gl ->
+  CInv (fold_left (fun acc id =>
+                 if node_exists acc id then
+                   match delete_node k acc id with Ok a => a | Err _ => acc end
+                 else acc) l gl).
+Proof.
+  induction l as [|id l IH]; intros gl HC; cbn [fold_left]; [exact HC|].
+  apply IH. destruct (node_exists gl id); [|exact HC].
+  destruct (delete_node k gl id) as [a|x] eqn:E; [|exact HC].
+  eapply cinv_delete_node; eassumption.
+Qed.
+
+Lemma cinv_add_edge_try parse k g sp dp ty m v r gl :
+  CInv g -> add_edge_try parse k g sp dp ty m v = (r, gl) -> CInv gl.
+Proof.
+  intros HC. unfold add_edge_try.
+  destruct (name_eqb (fst sp) (fst dp)); [intros [= <- <-]; exact HC|].
+  destruct (add_endpoint parse k g sp) as [g1|x] eqn:E1; [|intros [= <- <-]; exact HC].
+  destruct (add_endpoint_c _ _ _ _ _ HC E1) as (HC1 & Hs1 & Hi1).
+  destruct (add_endpoint parse k g1 dp) as [g2|x] eqn:E2; [|intros [= <- <-]; exact HC1].
+  destruct (add_endpoint_c _ _ _ _ _ HC1 E2) as (HC2 & Hd2 & Hi2).
+  destruct (match edge_at g (fst sp) (fst dp) with Some _ => true | None => false end);
+    [intros [= <- <-]; exact HC2|].
+  destruct (orient k g2 (fst sp) (fst dp) ty) as [[s' d']|x] eqn:Eo;
+    [|intros [= <- <-]; exact HC2].
+  destruct (set_edge g2 s' d' ty _ v) as [g3|x] eqn:Es; [|intros [= <- <-]; exact HC2].
+  intros [= <- <-]. destruct (set_edge_ok _ _ _ _ _ _ _ Es) as [-> _].
+  apply cinv_insert_edge; [exact HC2|]. cbn [edst].
+  destruct (orient_ok _ _ _ _ _ _ _ Eo) as [[_ ->]|(_ & _ & ->)]; [exact Hd2|apply Hi2, Hs1].
+Qed.
+
+Lemma cinv_add_edge parse k g sp dp ty m v :
+  CInv g -> CInv (snd (add_edge parse k g sp dp ty m v)).
+Proof.
+  intros HC. unfold add_edge.
+  destruct (add_edge_try parse k g sp dp ty m v) as [r0 gl0] eqn:Et.
+  pose proof (cinv_add_edge_try _ _ _ _ _ _ _ _ _ _ HC Et) as HC0.
+  pose proof (add_edge_try_shape _ _ _ _ _ _ _ _ _ _ Et) as Hs.
+  destruct r0 as [g'|x]; cbn [snd].
+  - destruct Hs as [<- _]. exact HC0.
+  - apply cinv_cleanup, HC0.
+Qed.
+
+(** * Part E: the intermediate state of [_set_edge] satisfies what the cycle check needs *)
+
+Lemma dir_into_app g g' e x :
+  gsrc g' = gsrc g ++ [e] ->
+  dir_into g' x
+  = dir_into g x ++ (if etype_eqb (ety e) Dir && name_eqb x (edst e) then [esrc e] else []).
+Proof.
+  intros Hg. unfold dir_into. rewrite Hg, filter_app, map_app. cbn [filter].
+  destruct (etype_eqb (ety e) Dir && name_eqb x (edst e)); reflexivity.
+Qed.
+
+Lemma ccinv_insert_edge g e : CCInv g -> In (esrc e) (node_ids g) -> CCInv (insert_edge g e).
+Proof.
+  intros [Hsrc Hperm] Hs. split.
+  - intros e' He'. rewrite insert_edge_ids. cbn [insert_edge gsrc] in He'.
+    apply in_app_or in He'. destruct He' as [He'|[<-|[]]]; [exact (Hsrc e' He')|exact Hs].
+  - intros x n' Hg. rewrite (dir_into_app g (insert_edge g e) e x eq_refl).
+    unfold get_node, insert_edge in Hg; cbn [gnodes] in Hg.
+    destruct (etype_eqb (ety e) Dir); cbn [andb].
+    + apply find_node_update2 in Hg; try reflexivity.
+      destruct Hg as (n & Hn & Hinb). cbn [ninb] in Hinb. rewrite Hinb.
+      rewrite (name_eqb_sym (edst e) x). destruct (name_eqb x (edst e)).
+      * apply Permutation_app_tail, Hperm, Hn.
+      * rewrite app_nil_r. apply Hperm, Hn.
+    + rewrite app_nil_r. apply Hperm, Hg.
+Qed.
+
+(** the in-place form of replace_node: the node object is rebuilt with the same identifier and
+    the same directed lists *)
+Lemma cinv_inplace g id n n' m' :
+  CInv g -> get_node g id = Some n -> nid n' = nid n -> ninb n' = ninb n ->
+  CInv {| gnodes := update_node (fun _ => n') id (gnodes g); gsrc := gsrc g; gdst := gdst g;
+          gmeta := m'; glag := glag g; gvar := gvar g |}.
+Proof.
+  intros HC Hn Hid Hinb. destruct (get_node_some _ _ _ Hn) as [_ Hnid].
+  assert (Hf : forall n0, name_eqb id (nid n0) = true -> nid n' = nid n0).
+  { intros n0 E. apply name_eqb_eq in E. congruence. }
+  constructor; cbn [gsrc].
+  - intros e He. unfold node_ids; cbn [gnodes]. rewrite (update_node_ids _ _ _ Hf).
+    exact (c_dst HC e He).
+  - intros x n0' e Hg He Hty Hdx. unfold get_node in Hg; cbn [gnodes] in Hg.
+    rewrite (find_node_update _ _ _ _ Hf) in Hg.
+    destruct (find_node x (gnodes g)) as [n0|] eqn:E0; [|discriminate].
+    injection Hg as <-. pose proof (c_inb HC x n0 e E0 He Hty Hdx) as Hin.
+    destruct (name_eqb_spec id (nid n0)) as [E|_]; [|exact Hin].
+    destruct (find_node_some _ _ _ E0) as [_ Hx]. rewrite Hinb.
+    assert (n0 = n) by (unfold get_node in Hn; congruence). subst n0. exact Hin.
 Qed.
